@@ -223,3 +223,860 @@ def stat_predicate(prog, sl, f, call, fates, _depth=0):
         if not _predicate_shape(prog, v, call, f.path, exists):
             return False
     return True
+
+
+# ------------------------------------------------------------------------------------------------ R4: Err never ends in success
+#
+# R1 asks "is the error value dropped?".  R4 asks the property's own question: can the function (or closure) reach one of
+# its *success* outcomes although this Result was Err?  `ok_on_success` decides the plain shapes (`?`, unwrap, returned,
+# Ok-preserving combinators, match whose Err arms fail).  What remains is explained case by case:
+#   * the value is handed to the NotFound-tolerating helper (R2) / to an inline `or_else` that produces Ok only under the
+#     not-found predicate — accepted only for *deletes* (the property excludes not-found on best-effort deletes only);
+#   * the value is matched and an Err arm continues: every CFG path from the Err arm to a success site must cross an
+#     edge that confines the error to a variant carrying no I/O error (a TOML parse error) or to ErrorKind::NotFound.
+# Everything else is a violation (a success path exists for an I/O failure) or unproven (shape not recognised).
+
+from .lib.mir import op_const, const_value
+from .lib.value import walk
+
+IO_CARRY = ('std::io::Error', 'TomlFileError', 'ReadLayerError', 'WriteLayerError', 'DeleteLayerError', 'LayerError',
+            'WriteLayerMetadataError', 'ReplaceLayerSbomsError', 'ReplaceLayerExecdProgramsError',
+            'LayerErrorOrBuildpackError', 'libcnb::error::Error')
+DELETES = ('std::fs::remove_file', 'std::fs::remove_dir', 'std::fs::remove_dir_all')
+TRY = 'std::ops::Try::branch'
+EXIT = 'std::process::exit'
+ORDER = {'ok': 0, 'tolerated': 1, 'unproven': 2, 'violated': 3}
+
+
+def _nonzero(v):
+    return isinstance(v, int) and not isinstance(v, bool) and v != 0
+
+
+def worst(results):
+    results = [r for r in results if r is not None]
+    if not results:
+        return ('ok', '')
+    return max(results, key=lambda r: ORDER[r[0]])
+
+
+def _base_name(n):
+    return (n or '').split('::<')[0] if (n or '').startswith('std::fs::') else (n or '')
+
+
+def _is_try(c):
+    ns = c.names()
+    return TRY in ns or any(n.endswith('as std::ops::Try>::branch') for n in ns)
+
+
+class ErrFlow:
+    def __init__(self, prog, sl, roles):
+        self.prog, self.sl, self.roles = prog, sl, roles
+        self.helper = roles.get('NOT_FOUND_HELPER') or 'libcnb::util::default_on_not_found'
+        self.pred = roles.get('NOT_FOUND_PRED') or 'libcnb::util::is_not_found_error_kind'
+        self.remover = roles.get('REMOVER') or 'libcnb::util::remove_dir_recursively'
+        self._memo = {}
+        self._succ = {}
+        self._deleters = {}
+        self._errlocal = {}
+
+    # ---- success blocks of a function: where it commits to a non-error outcome
+    def success_blocks(self, f):
+        if f.path in self._succ:
+            return self._succ[f.path]
+        from .lib.effects import success_sites
+        out = {s.bb for s in success_sites(f)}
+        if not f.ret.startswith('std::result::Result<'):
+            out |= set(f.return_blocks())
+        for c in f.calls:
+            if not c.indirect and c.is_(EXIT) and c.args:
+                v = const_value(op_const(c.args[0])) if op_const(c.args[0]) else None
+                if v is None:
+                    sv = strip(self.sl.operand(f, c.args[0]))
+                    v = sv[1] if sv[0] == 'const' else None
+                if _nonzero(v):
+                    continue
+                # `let code = match r { Ok(c) => c, Err(e) => { on_error(e); 1 } }; exit(code)`: the process succeeds
+                # where the exit code is *chosen* to be something other than a non-zero constant
+                pl = op_place(c.args[0])
+                defs = list(_origin_defs(f, pl[0])) if pl and len(pl) == 1 else []
+                if defs and all(d[0] in ('stmt', 'call') for d in defs):
+                    for d in defs:
+                        if d[0] == 'stmt' and d[3]['r'] == 'use' and op_const(d[3]['o']) and _nonzero(const_value(op_const(d[3]['o']))):
+                            continue
+                        if d[0] == 'call' and self._fallback_exit_code(f, d[3]):
+                            continue     # r.unwrap_or_else(|e| { on_error(e); NONZERO }): decided at that call
+                        out.add(d[1])
+                else:
+                    out.add(c.bb)
+        self._succ[f.path] = out
+        return out
+
+    MUTATING = ('std::fs::write', 'std::fs::create_dir', 'std::fs::create_dir_all', 'std::fs::set_permissions',
+                'std::fs::rename', 'std::fs::copy', 'std::fs::hard_link', 'std::fs::File::create', 'std::fs::File::create_new',
+                'std::fs::OpenOptions::open', 'std::os::unix::fs::symlink', 'std::io::Write::write_all',
+                'std::io::Write::write', 'std::io::Write::flush', 'std::fs::File::set_permissions', 'std::fs::File::sync_all')
+
+    def mutates(self, origin):
+        """may the operation that produced the Result create / change (not merely read or delete) file-system state?
+        NotFound is an expected answer only for reads of optional inputs and for deletes"""
+        if origin is None or origin.indirect:
+            return True
+        if self.is_delete(origin):
+            return False
+        ns = {_base_name(n) for n in origin.names()}
+        if ns & set(self.MUTATING):
+            return True
+        callees = self.prog.callee_fns(origin)
+        if not callees:
+            return not any(n.startswith(('std::fs::read', 'std::fs::metadata', 'std::fs::symlink_metadata', 'std::fs::File::open',
+                                         'std::path::Path::', 'std::io::Read::', 'std::fs::DirEntry::', 'std::io::read_to_string'))
+                           for n in ns)
+        for g in self.prog.reach(callees).values():
+            for c in g.calls:
+                if not c.indirect and {_base_name(n) for n in c.names()} & set(self.MUTATING):
+                    return True
+        return False
+
+    def exit_code_local(self, f, local, depth=0):
+        """every use of the local is `process::exit(local)` (possibly through moves)"""
+        uses = [u for u in f.uses_of(local) if u[1] != 'drop']
+        if not uses or depth > 4:
+            return False
+        for (bi, kind, idx, how, pl) in uses:
+            if len(pl) != 1:
+                return False
+            if kind == 'arg':
+                c = f.call_at(bi)
+                if c is None or c.indirect or not c.is_(EXIT):
+                    return False
+            elif kind == 'stmt':
+                st = f.blocks[bi]['s'][idx]
+                if st[2]['r'] != 'use' or len(st[1]) != 1 or not self.exit_code_local(f, st[1][0], depth + 1):
+                    return False
+            else:
+                return False
+        return True
+
+    def _fallback_exit_code(self, f, c2):
+        """`result.unwrap_or_else(|e| { ..; NONZERO })` whose value is only ever the process exit code: on Err the
+        process exits non-zero — a failure outcome, not a fallback value"""
+        if c2.indirect or not c2.is_(RESULT + 'unwrap_or_else') or not c2.dest or len(c2.dest) != 1:
+            return False
+        v, g = self._closure_of(f, c2, 1)
+        if g is None or not self.exit_code_local(f, c2.dest[0]):
+            return False
+        rv = strip(self.sl.local(g, 0))
+        alts = rv[1] if rv[0] == 'phi' else (rv,)
+        return bool(alts) and all(strip(a)[0] == 'const' and _nonzero(strip(a)[1]) for a in alts)
+
+    def is_delete(self, origin):
+        """origin: the Call that produced the Result (None: unknown): a std delete, or a workspace routine that only
+        deletes (its reach contains deletes and — apart from chmod, needed to empty read-only directories — nothing
+        that creates or changes files)"""
+        if origin is None or origin.indirect:
+            return False
+        ns = {_base_name(n) for n in origin.names()}
+        if ns & set(DELETES):
+            return True
+        callees = self.prog.callee_fns(origin)
+        if not callees:
+            return False
+        key = tuple(sorted(g.path for g in callees))
+        if key not in self._deleters:
+            dels = muts = 0
+            for g in self.prog.reach(callees).values():
+                for c in g.calls:
+                    if c.indirect:
+                        continue
+                    cn = {_base_name(n) for n in c.names()}
+                    dels += bool(cn & set(DELETES))
+                    muts += bool(cn & (set(self.MUTATING) - {'std::fs::set_permissions', 'std::fs::File::set_permissions'}))
+            self._deleters[key] = dels > 0 and muts == 0
+        return self._deleters[key]
+
+    def overwritten(self, f, call):
+        """the destination of the call is assigned again (another arm, the next loop iteration) on a path on which it
+        has not been read in between: `let mut result = Ok(()); for x in xs { result = write(x); } result`"""
+        if not call.dest or len(call.dest) != 1 or call.dest[0] == 0:
+            return False
+        return self.local_overwritten(f, call.dest[0], call.bb, None)
+
+    def alias_overwritten(self, f, r, seen=None):
+        """the Result is moved into a variable (`result = write(x)`) that is overwritten before it is inspected"""
+        seen = set() if seen is None else seen
+        if r in seen or len(seen) > 8:
+            return False
+        seen.add(r)
+        for (bi, kind, idx, how, pl) in f.uses_of(r):
+            if kind != 'stmt' or len(pl) != 1:
+                continue
+            st = f.blocks[bi]['s'][idx]
+            if st[2]['r'] == 'use' and len(st[1]) == 1 and st[1][0] != 0:
+                if self.local_overwritten(f, st[1][0], bi, idx) or self.alias_overwritten(f, st[1][0], seen):
+                    return True
+        return False
+
+    def local_overwritten(self, f, r, def_bb, def_idx):
+        """def_idx: statement index of the assignment inside def_bb (None: the block's terminating call)"""
+        defs = {d[1] for d in f.whole_defs(r)}
+        if len(defs) < 2 and not f.in_loop(def_bb):
+            return False
+        real = [u for u in f.uses_of(r) if u[1] != 'drop' and u[3] != 'discr']
+        if def_idx is not None and any(u[0] == def_bb and (u[1] != 'stmt' or u[2] > def_idx) for u in real):
+            return False      # read later in the defining block itself
+        uses = {u[0] for u in real}
+        seen, work = set(), list(self._err_succs(f, def_bb, r))
+        while work:
+            b = work.pop()
+            if b in seen:
+                continue
+            seen.add(b)
+            if b in uses:
+                continue
+            if b in defs:
+                return True
+            work.extend(self._err_succs(f, b, r))
+        return False
+
+    def _err_succs(self, f, b, r):
+        """successors of b on which the Result in local r may still be Err (a switch on its discriminant: not the Ok edge)"""
+        from .lib.guards import _discr_info
+        t = f.blocks[b]['t']
+        if t['t'] == 'switch':
+            di = _discr_info(f, b, t['o'])
+            if di and list(di[0]) == [r]:
+                place, vmap, enum = di
+                listed = [v for v, _ in t['targets']]
+                out = [tb for v, tb in t['targets'] if vmap.get(v) not in ('Ok', 'Some')]
+                if any(n not in ('Ok', 'Some') for v, n in vmap.items() if v not in listed):
+                    out.append(t['else'])
+                return out
+        return f.succs(b)
+
+    # ---- public: a call site
+    def site(self, f, call, depth=0):
+        key = (f.path, call.bb)
+        if key in self._memo:
+            return self._memo[key]
+        if self.overwritten(f, call) or (call.dest and len(call.dest) == 1 and call.dest[0] != 0 and self.alias_overwritten(f, call.dest[0])):
+            self._memo[key] = ('violated', 'the Result is overwritten by a later assignment before it is inspected: an '
+                                           'earlier failure is lost')
+            return self._memo[key]
+        self._memo[key] = ('unproven', 'recursive')
+        from .lib.discard import ok_on_success
+        try:
+            oks = ok_on_success(self.prog, f, call, self.success_blocks(f))
+        except Exception as e:   # fail closed
+            oks = False
+        if oks:
+            r = ('ok', 'reaching a success site implies Ok')
+        elif call.dest is None or len(call.dest) != 1:
+            r = ('unproven', 'the Result is written into a field / has no destination')
+        else:
+            r = self.place(f, list(call.dest), call, depth)
+        self._memo[key] = r
+        return r
+
+    # ---- the core: a place holding a Result<_, E>
+    def place(self, f, root, origin, depth=0):
+        if depth > 6:
+            return ('unproven', 'nesting too deep')
+        prog, sl = self.prog, self.sl
+        from .lib.discard import PANICKING, OK_PRESERVING, DISCARDING, diverges
+        aliases, work = [], [list(root)]
+        results = []
+        sinks = set()
+        switches = []      # (switch bb, variants map, listed, else)
+        while work:
+            P = work.pop()
+            if P in aliases:
+                continue
+            aliases.append(P)
+            for (bi, kind, idx, how, pl) in f.uses_of(P[0]):
+                pl = list(pl)
+                if pl[:len(P)] != P or kind == 'drop':
+                    continue
+                rest = pl[len(P):]
+                if kind == 'stmt':
+                    st = f.blocks[bi]['s'][idx]
+                    target, rv = st[1], st[2]
+                    if how == 'discr':
+                        if not rest:
+                            switches.append((bi, target, dict(rv.get('variants') or ())))
+                        continue
+                    if rest and rest[0] in ('@Err', '@Ok'):
+                        continue
+                    if rest:
+                        results.append(('unproven', 'projection %s of the Result is read' % ''.join(map(str, rest))))
+                        continue
+                    if rv['r'] in ('use', 'cast') and how in ('m', 'c'):
+                        if list(target) == [0]:
+                            sinks.add(bi)          # returned as the function's own result: Err stays Err
+                        elif len(target) == 1:
+                            if self.local_overwritten(f, target[0], bi, idx):
+                                results.append(('violated', 'the Result is assigned to a variable that is overwritten (next loop '
+                                                            'iteration / another assignment) before it is inspected: an earlier failure is lost'))
+                            work.append([target[0]])
+                        else:
+                            results.append(('unproven', 'the Result is stored into %s' % (target,)))
+                        continue
+                    if rv['r'] == 'ref' and len(target) == 1:
+                        results.append(self._ref_uses(f, target[0], origin, sinks, depth))
+                        continue
+                    results.append(('unproven', 'the Result is used in rvalue %s' % rv['r']))
+                elif kind == 'arg':
+                    c2 = f.call_at(bi)
+                    results.append(self._arg(f, c2, idx, rest, origin, sinks, depth))
+                else:
+                    results.append(('unproven', 'the Result is used as %s' % kind))
+        # explicit matches: the Err arms
+        # a later re-inspection of the same Result (drop elaboration, a second `if let`) is reached on an Err path only
+        # through the Err arm of the inspection that dominates it, whose exploration already covers it
+        roots_sw = [x for x in switches if not any(y[0] != x[0] and f.dominates(y[0], x[0]) for y in switches)]
+        for (db, dtarget, variants) in roots_sw:
+            results.append(self._err_arms(f, db, dtarget, variants, aliases, sinks, origin))
+        if not results and not sinks:
+            return ('violated', 'the Result is never consumed')
+        return worst(results)
+
+    def _ref_uses(self, f, rl, origin, sinks, depth):
+        """`&result` handed on: only read-only observation that cannot decide the outcome is accepted"""
+        from .lib.discard import DISCARDING
+        out = []
+        for (bi, kind, idx, how, pl) in f.uses_of(rl):
+            if kind == 'drop':
+                continue
+            if kind == 'arg':
+                c2 = f.call_at(bi)
+                if c2 is not None and not c2.indirect and c2.names() & DISCARDING:
+                    out.append(('violated', 'only the success flag of the Result is consulted (%s)' % c2.name))
+                    continue
+                if c2 is not None and not c2.indirect and c2.is_('std::result::Result::<T, E>::as_ref', 'std::result::Result::<T, E>::as_mut') \
+                        and c2.dest and len(c2.dest) == 1:
+                    out.append(self.place(f, [c2.dest[0]], origin, depth + 1))
+                    continue
+            if kind == 'stmt':
+                st = f.blocks[bi]['s'][idx]
+                if st[2]['r'] in ('use', 'ref', 'cast') and len(st[1]) == 1 and len(pl) <= 2:
+                    out.append(self._ref_uses(f, st[1][0], origin, sinks, depth + 1) if depth < 6 else ('unproven', 'deep'))
+                    continue
+            out.append(('unproven', 'a reference to the Result escapes (%s)' % kind))
+        return worst(out) if out else ('ok', '')
+
+    def _closure_of(self, f, c2, ai):
+        if ai >= len(c2.args):
+            return None, None
+        v = strip(self.sl.operand(f, c2.args[ai]))
+        if v[0] in ('closure', 'fnitem'):
+            return v, self.prog.fns.get(v[1])
+        return v, None
+
+    def _arg(self, f, c2, idx, rest, origin, sinks, depth):
+        from .lib.discard import PANICKING, OK_PRESERVING, DISCARDING, diverges
+        if c2 is None or c2.indirect:
+            return ('unproven', 'the Result is an argument of an indirect call')
+        if rest:
+            if rest[0] in ('@Err', '@Ok'):
+                return None
+            return ('unproven', 'a projection of the Result is an argument')
+        names = c2.names()
+        R = RESULT
+        if _is_try(c2) or names & PANICKING:
+            sinks.add(c2.bb)
+            return ('ok', '')
+        if idx == 0 and names & OK_PRESERVING:
+            sinks.add(c2.bb)
+            if c2.dest and list(c2.dest) == [0]:
+                return ('ok', '')
+            return self.site(f, c2, depth + 1)
+        if idx == 0 and names & {R + 'unwrap_or_else'}:
+            v, g = self._closure_of(f, c2, 1)
+            if g is not None and diverges(g):
+                sinks.add(c2.bb)
+                return ('ok', '')
+            if self._fallback_exit_code(f, c2):
+                sinks.add(c2.bb)
+                return ('ok', '')
+            return ('violated', 'an Err is replaced by a fallback value in %s: the failure is not returned' % c2.name)
+        if idx == 0 and names & {R + 'or_else'}:
+            v, g = self._closure_of(f, c2, 1)
+            if g is None:
+                return ('unproven', 'or_else with an unknown handler')
+            cases = helper_cases(self.prog, self.sl, g, 1, in_val=None, ctx_err=True)
+            bad = []
+            fresh = False
+            for cs in cases:
+                if cs.kind == 'fresh_ok':
+                    fresh = True
+                    is_err, nf, conds = fresh_ok_guard(self.prog, self.sl, cs, self.pred)
+                    if not nf:
+                        bad.append('Ok(..) is produced for errors other than NotFound')
+                elif cs.kind not in ('err', 'same'):
+                    bad.append('unrecognised result %s' % (cs.kind,))
+            if bad:
+                kind = 'violated' if any('NotFound' in b for b in bad) else 'unproven'
+                return (kind, 'the inline error handler of or_else: ' + '; '.join(bad))
+            if fresh and not self.is_delete(origin):
+                return ('violated', 'NotFound is tolerated on %s, which is not a delete' % (origin.name if origin else '?'))
+            sinks.add(c2.bb)
+            nxt = self.site(f, c2, depth + 1)
+            if nxt[0] == 'ok' and fresh:
+                return ('tolerated', 'best-effort delete: only NotFound is turned into success (inline handler)')
+            return nxt
+        if self.helper in names:
+            if idx != 0:
+                return ('unproven', 'unexpected argument position of the NotFound helper')
+            if not self.is_delete(origin):
+                return ('violated', 'the NotFound-tolerating helper is applied to %s, which is not a delete: a failed '
+                                    'operation is reported as success' % (origin.name if origin is not None else 'an unknown operation'))
+            sinks.add(c2.bb)
+            nxt = self.site(f, c2, depth + 1)
+            if nxt[0] == 'ok':
+                return ('tolerated', 'deliberate best-effort delete: NotFound only (R2), every other error propagates')
+            return nxt
+        if names & DISCARDING:
+            return ('violated', 'the error is dropped by %s' % c2.name)
+        # a workspace function taking the Result by value: it must not succeed on Err, and what it returns neither
+        callees = self.prog.callee_fns(c2)
+        if callees and all(idx < g.argc for g in callees):
+            out = [self.place(g, [idx + 1], origin, depth + 1) for g in callees]
+            if c2.dty and c2.dty.startswith('std::result::Result<') and c2.dest and len(c2.dest) == 1:
+                out.append(self.site(f, c2, depth + 1))
+            sinks.add(c2.bb)
+            return worst(out)
+        return ('unproven', 'the Result is handed to %s' % c2.name)
+
+    # ---- per-edge decisions of one switch block (the logic of guards.conditions for a single switch)
+    def _edges(self, f, sb):
+        from .lib.guards import _discr_info, Cond
+        t = f.blocks[sb]['t']
+        if t['t'] != 'switch':
+            return []
+        by_target = {}
+        for v, tb in t['targets']:
+            by_target.setdefault(tb, []).append(v)
+        by_target.setdefault(t['else'], []).append('else')
+        listed = [v for v, _ in t['targets']]
+        di = _discr_info(f, sb, t['o'])
+        val = self.sl.operand(f, t['o'])
+        out = []
+        for tb, labels in by_target.items():
+            if di:
+                place, vmap, enum = di
+                names = set()
+                for lab in labels:
+                    if lab == 'else':
+                        names |= {n for v, n in vmap.items() if v not in listed}
+                    else:
+                        names.add(vmap.get(lab, str(lab)))
+                out.append((tb, Cond(f, sb, tb, 'variant', frozenset(names), val, self.sl.place(f, place), enum)))
+            elif t.get('oty') == 'bool':
+                if labels == ['else'] and listed == [0]:
+                    oc = True
+                elif labels == [0]:
+                    oc = False
+                elif labels == [1]:
+                    oc = True
+                elif labels == ['else'] and listed == [1]:
+                    oc = False
+                else:
+                    out.append((tb, None))
+                    continue
+                v2 = val
+                while v2[0] == 'un' and v2[1] == 'Not':
+                    v2, oc = v2[2], (not oc)
+                if v2[0] == 'select' and all(rv[0] == 'const' and isinstance(rv[1], bool) for _, rv in v2[3]):
+                    names = frozenset(n for ns, rv in v2[3] if rv[1] == oc for n in ns)
+                    out.append((tb, Cond(f, sb, tb, 'variant', names, v2, v2[1], v2[2])))
+                    continue
+                cd = Cond(f, sb, tb, 'bool', oc, v2)
+                cd._slicer = self.sl
+                out.append((tb, cd))
+            else:
+                out.append((tb, None))
+        return out
+
+    def _io_free(self, enum, names):
+        """every listed variant of `enum` carries no I/O-error payload (e.g. a TOML parse error)"""
+        adt = self.prog.adts.get(enum) if enum else None
+        if not adt or not names:
+            return False
+        by = {v['name']: v for v in adt.get('variants', ())}
+        for n in names:
+            v = by.get(n)
+            if v is None:
+                return False
+            for fl in v.get('fields', ()):
+                if any(k in fl.get('ty', '') for k in IO_CARRY) or 'dyn ' in fl.get('ty', '') or 'Box<' in fl.get('ty', ''):
+                    return False
+        return True
+
+    def _mentions(self, v, roots):
+        return any(w in roots for w in walk(v))
+
+    def _classify_edge(self, cond, roots):
+        """'confine' (only non-I/O / NotFound errors pass), 'dead' (cannot be taken while the Result is Err), or None"""
+        if cond is None:
+            return None
+        from .lib.discard import OK_PRESERVING
+        if cond.kind == 'variant':
+            subj = cond.subject
+            s = strip(subj) if subj is not None else None
+            if s is not None and s[0] == 'call' and (s[1] == TRY or s[1].endswith('as std::ops::Try>::branch')) and s[2]:
+                a = strip(s[2][0])
+                while a[0] == 'call' and a[1] in OK_PRESERVING and a[2]:
+                    a = strip(a[2][0])
+                if a[0] == 'agg' and a[2] == 'Err' and (a[1] or '').endswith('result::Result') and cond.outcome == frozenset({'Continue'}):
+                    return 'dead'
+                return None
+            if s is not None and self._mentions(subj, roots) and cond.outcome and 'Err' not in cond.outcome and 'Ok' not in cond.outcome:
+                if cond.enum and not cond.enum.endswith('result::Result') and self._io_free(cond.enum, cond.outcome):
+                    return 'confine'
+                if (cond.enum or '').endswith('io::ErrorKind') and cond.outcome == frozenset({'NotFound'}) and _is_kind_of_error(subj):
+                    return 'confine-nf'
+            return None
+        if cond.kind == 'bool':
+            for val, oc in cond.views():
+                if val[0] != 'call' or not self._mentions(val, roots):
+                    continue
+                if val[1] == self.pred and oc is True:
+                    return 'confine-nf'
+                if len(val[2]) == 2 and (val[1].endswith('::eq') or val[1].endswith('::ne')):
+                    a, b = val[2]
+                    if (_is_kind_of_error(a) and _is_not_found(b)) or (_is_kind_of_error(b) and _is_not_found(a)):
+                        if (val[1].endswith('::eq') and oc is True) or (val[1].endswith('::ne') and oc is False):
+                            return 'confine-nf'
+        return None
+
+    def _assigns_propagated_err(self, f, b):
+        """the block builds `Err(..)` into a local all of whose consumers end in failure when it is Err
+        (`match r { .., Err(e) => Err(wrap(e)) }.map_err(..)?`): an Err path through this block cannot succeed"""
+        for st in f.blocks[b]['s']:
+            if st[0] != '=' or len(st[1]) != 1 or st[1][0] == 0:
+                continue
+            rv = st[2]
+            if rv['r'] == 'agg' and rv.get('adt') == 'std::result::Result' and rv.get('variant') == 'Err':
+                key = (f.path, st[1][0])
+                if key not in self._errlocal:
+                    self._errlocal[key] = ('unproven', 'recursive')
+                    self._errlocal[key] = self.place(f, [st[1][0]], None, 1)
+                if self._errlocal[key][0] == 'ok':
+                    return True
+        return False
+
+    def _err_arms(self, f, db, dtarget, variants, aliases, sinks, origin):
+        """CFG paths from the Err arm(s) of a match on the Result to a success site"""
+        succ = self.success_blocks(f)
+        roots = set()
+        for P in aliases:
+            v = self.sl.place(f, P) if len(P) > 1 else self.sl.local(f, P[0])
+            roots.add(v)
+            roots.add(strip(v))
+        # the switch consuming the discriminant
+        starts = []
+        found = False
+        for sb, blk in enumerate(f.blocks):
+            t = blk['t']
+            if t['t'] != 'switch':
+                continue
+            p = op_place(t['o'])
+            if not p or list(p) != list(dtarget):
+                continue
+            found = True
+            listed = [v for v, _ in t['targets']]
+            for v, tb in t['targets']:
+                if variants.get(v) not in ('Ok', 'Some'):
+                    starts.append(tb)
+            if any(n not in ('Ok', 'Some') for v, n in variants.items() if v not in listed):
+                starts.append(t['else'])
+        if not found:
+            # discriminant read without a switch (drop elaboration flags): nothing decided here
+            return None
+        seen, work = set(), list(starts)
+        confined = False
+        while work:
+            b = work.pop()
+            if b in seen:
+                continue
+            seen.add(b)
+            if b in sinks or self._assigns_propagated_err(f, b):
+                continue
+            if b in succ:
+                return ('violated', 'an Err arm of the match on this Result reaches the success site bb%d of %s without the error '
+                                    'being confined to NotFound / a non-I/O variant' % (b, f.path))
+            t = f.blocks[b]['t']
+            if t['t'] == 'switch':
+                for tb, cond in self._edges(f, b):
+                    k = self._classify_edge(cond, roots)
+                    if k in ('confine', 'confine-nf'):
+                        confined = 'nf' if (k == 'confine-nf' or confined == 'nf') else True
+                        continue
+                    if k == 'dead':
+                        continue
+                    work.append(tb)
+            else:
+                work.extend(f.succs(b))
+        if confined == 'nf' and self.mutates(origin):
+            return ('violated', 'NotFound is tolerated on %s, which is neither a delete nor a read of an optional input'
+                    % (origin.name if origin is not None else 'an unknown operation'))
+        if confined:
+            return ('tolerated', 'an Err arm continues only for NotFound / for a variant that carries no I/O error')
+        return ('ok', 'no Err arm reaches a success site')
+
+
+# ------------------------------------------------------------------------------------------------ R5: carriers of Results
+#
+# Errors also travel inside other values: `Option<Result<..>>` (`Iterator::next` of a fallible stream such as
+# `fs::read_dir`, `opt.map(fallible)`), iterators whose items are Results (ReadDir, `xs.iter().map(|x| fs::write(..))`)
+# and Result-typed parameters of closures handed to adapters.  R1 only sees calls whose own type is `Result<..>`.
+
+import re as _re
+
+FALLIBLE_STREAMS = ('std::fs::ReadDir', 'std::io::Lines', 'std::io::Split', 'std::io::Bytes')
+ITEM_OF_FIRST = ('std::iter::Peekable', 'std::iter::Fuse', 'std::iter::Rev', 'std::iter::Skip', 'std::iter::Take',
+                 'std::iter::StepBy', 'std::iter::Filter', 'std::iter::Inspect', 'std::iter::SkipWhile',
+                 'std::iter::TakeWhile', 'std::iter::Cycle', 'std::iter::Cloned', 'std::iter::Copied', 'std::boxed::Box')
+CONTAINERS = ('std::vec::IntoIter', 'std::slice::Iter', 'std::slice::IterMut', 'std::iter::Once', 'std::option::IntoIter',
+              'std::vec::Vec', 'std::vec::Drain', 'std::collections::VecDeque', 'std::collections::vec_deque::IntoIter',
+              'std::array::IntoIter', 'std::option::Option')
+_CLOSURE_RX = _re.compile(r'\{closure@([^:}]+):(\d+):\d+: \d+:\d+\}')
+
+
+def strip_refs(t):
+    t = t.strip()
+    while t.startswith('&'):
+        t = t[1:].lstrip()
+        if t.startswith("'"):
+            t = t.split(' ', 1)[1] if ' ' in t else ''
+        if t.startswith('mut '):
+            t = t[4:]
+        t = t.strip()
+    return t
+
+
+def split_type(t):
+    """'a::B<C, D<E>>' -> ('a::B', ['C', 'D<E>']); opaque types -> (t, [])"""
+    t = t.strip()
+    if not t or t[0] in '<{([' or t.startswith(('dyn ', 'impl ', 'fn(', 'for<')):
+        return t, []
+    i = t.find('<')
+    if i < 0 or not t.endswith('>'):
+        return t, []
+    head, body = t[:i], t[i + 1:-1]
+    args, depth, cur = [], 0, ''
+    for ch in body:
+        if ch in '<([{':
+            depth += 1
+        elif ch in '>)]}':
+            depth -= 1
+        if ch == ',' and depth == 0:
+            args.append(cur.strip())
+            cur = ''
+        else:
+            cur += ch
+    if cur.strip():
+        args.append(cur.strip())
+    return head, [a for a in args if not a.startswith("'")]
+
+
+class Carriers:
+    def __init__(self, prog, err_rx):
+        self.prog, self.err_rx = prog, err_rx
+        self.closures = {}
+        for g in prog.fns.values():
+            if g.kind == 'Closure':
+                self.closures.setdefault((g.file, g.line), []).append(g)
+
+    def is_result(self, t):
+        t = strip_refs(t)
+        return t.startswith('std::result::Result<') and bool(self.err_rx.search(t))
+
+    def is_opt_result(self, t):
+        t = strip_refs(t)
+        if not t.startswith('std::option::Option<'):
+            return False
+        h, a = split_type(t)
+        return len(a) == 1 and self.is_result(a[0])
+
+    def closure_fns(self, t):
+        out = []
+        for m in _CLOSURE_RX.finditer(t):
+            out.extend(self.closures.get((m.group(1), int(m.group(2))), ()))
+        return out
+
+    @staticmethod
+    def fn_ret(t):
+        """return type of a fn-item / fn-pointer type `fn(A) -> R {path}`"""
+        m = _re.match(r'^(?:unsafe )?(?:extern "[^"]*" )?fn\(.*\) -> (.*?)(?: \{.*\})?$', t.strip())
+        return m.group(1) if m else None
+
+    def hint(self, t):
+        """cheap textual filter: could a value of this type carry a Result<_, E> of the subject?"""
+        if any(s in t for s in FALLIBLE_STREAMS):
+            return True
+        if 'Result<' in t and self.err_rx.search(t):
+            return True
+        return any(self.is_result(g.ret) or self.is_opt_result(g.ret) for g in self.closure_fns(t))
+
+    def item_result(self, t, depth=0):
+        """True: iterating a value of type t yields Result<_, E> items; False: it does not; None: unknown"""
+        t = strip_refs(t)
+        if depth > 8:
+            return None
+        if not self.hint(t):
+            return False
+        head, args = split_type(t)
+        if head in FALLIBLE_STREAMS:
+            return True
+        if head in ('std::iter::Map',) and len(args) == 2:
+            gs = self.closure_fns(args[1])
+            if gs:
+                return True if any(self.is_result(g.ret) for g in gs) else False
+            rt = self.fn_ret(args[1])
+            return None if rt is None else self.is_result(rt)
+        if head in ('std::iter::FilterMap', 'std::iter::MapWhile') and len(args) == 2:
+            gs = self.closure_fns(args[1])
+            if gs:
+                return True if any(self.is_opt_result(g.ret) for g in gs) else False
+            rt = self.fn_ret(args[1])
+            return None if rt is None else self.is_opt_result(rt)
+        if head == 'std::iter::Flatten' and len(args) == 1:
+            # flattening Results yields their payloads (the flatten call itself is the reported consumer)
+            inner = self.item_result(args[0], depth + 1)
+            return False if inner is True else None
+        if head in ITEM_OF_FIRST and args:
+            return self.item_result(args[0], depth + 1)
+        if head == 'std::iter::Chain' and len(args) == 2:
+            a, b = self.item_result(args[0], depth + 1), self.item_result(args[1], depth + 1)
+            return True if (a or b) else (None if (a is None or b is None) else False)
+        if head in CONTAINERS and args:
+            x = args[-1] if head != 'std::vec::Vec' else args[0]
+            if self.is_result(x):
+                return True
+            # an element that merely *contains* a fallible stream (`Vec<(PathBuf, ReadDir)>`) is not a Result: the inner
+            # stream is classified where it is consumed
+            return None if ('Result<' in x and self.err_rx.search(x)) else False
+        if head in ('std::result::Result', 'std::ops::ControlFlow'):
+            return False
+        # only iterator-like types are streams; closures, fn pointers, structs, tuples are not iterated by the consumers
+        # classified here (a Result stored inside them is R1's / R4's "stored" case)
+        if head.startswith('std::iter::') or 'Iterator' in t or 'IntoIter' in t:
+            return None
+        return False
+
+
+ITER_PREFIX = ('std::iter::Iterator::', 'std::iter::IntoIterator::', 'std::iter::DoubleEndedIterator::',
+               'std::iter::Extend::', 'std::iter::FromIterator::', 'std::iter::Peekable::<I>::')
+PASS_ON = ('into_iter', 'by_ref', 'peekable', 'fuse', 'rev', 'chain', 'inspect', 'map', 'iter', 'iter_mut')
+CLOSURE_CONSUMERS = {'for_each': 1, 'try_for_each': 1, 'filter_map': 1, 'flat_map': 1, 'filter': 1, 'find': 1, 'find_map': 1,
+                     'any': 1, 'all': 1, 'position': 1, 'map_while': 1, 'take_while': 1, 'skip_while': 1, 'partition': 1,
+                     'fold': 2, 'try_fold': 2, 'scan': 2}
+DROPPING = ('flatten', 'count', 'last', 'nth')
+COLLECTORS = ('collect', 'sum', 'product', 'from_iter', 'try_collect')
+
+
+def stream_consumer(car, prog, sl, f, c, fns, helper_path):
+    """classify a call that receives a fallible stream (an iterator of Result<_, E>) as its receiver:
+    (status, why) with status in ok / violated / unproven"""
+    from .lib.discard import DISCARDING, OK_PRESERVING
+    names = c.names()
+    decl = c.decl or c.name or ''
+    short = decl.split('::')[-1]
+    if not any(n.startswith(ITER_PREFIX) or ' as std::iter::' in n for n in names):
+        callees = prog.callee_fns(c)
+        if callees and all(g.path in fns for g in callees):
+            return ('ok', 'handed to %s, which is analysed itself' % c.name)
+        if c.is_('std::mem::drop'):
+            return ('ok', 'dropping the (consumed or unconsumed) stream loses no element error that was produced')
+        return ('unproven', 'a stream of Results is handed to %s' % c.name)
+    dty = c.dty or ''
+    if short in ('next', 'next_back', 'peek', 'next_if'):
+        if car.is_opt_result(dty):
+            return ('ok', 'element taken as Option<Result<..>> (decided by R5/option)')
+        return ('unproven', '%s on a stream of Results yields %s' % (short, dty[:80]))
+    if short in PASS_ON:
+        return ('ok', 'adapter %s passes the Results on' % short)
+    if short in COLLECTORS or (short in ('try_for_each', 'try_fold') and car.is_result(dty)):
+        if car.is_result(dty):
+            if short in CLOSURE_CONSUMERS:
+                pass   # the closure's parameter is checked below as well
+            else:
+                return ('ok', 'collected into a Result: the first Err is returned (R1/R4 site)')
+        else:
+            return ('unproven', 'the Results are collected into %s without short-circuiting' % dty[:80])
+    if short in CLOSURE_CONSUMERS:
+        ai = CLOSURE_CONSUMERS[short]
+        if ai >= len(c.args):
+            return ('unproven', 'no callable argument')
+        v = strip(sl.operand(f, c.args[ai]))
+        if v[0] == 'fnitem' and v[1] not in prog.fns:
+            if v[1] in OK_PRESERVING and short in ('filter_map', 'map_while', 'flat_map'):
+                return ('ok', '%s(%s) keeps every Err as an element' % (short, v[1].split('::')[-1]))
+            if v[1] in DISCARDING:
+                return ('violated', 'every element error is dropped by %s(%s)' % (short, v[1].split('::')[-1]))
+            return ('unproven', '%s(%s) over a stream of Results' % (short, v[1]))
+        g = prog.fns.get(v[1]) if v[0] in ('closure', 'fnitem') else None
+        if g is None:
+            return ('unproven', 'unknown callable given to %s' % short)
+        if g.path not in fns:
+            return ('unproven', 'callable %s is outside the analysed scope' % g.path)
+        return ('ok', 'the element Result is a parameter of %s (decided by R5/param)' % g.path)
+    if short in DROPPING:
+        return ('violated', '`%s` over a stream of Results drops the element errors' % short)
+    return ('unproven', 'adapter %s over a stream of Results is not modelled' % short)
+
+
+def _option_flow(self, f, root, origin=None, depth=0):
+    """a place holding Option<Result<_, E>>: the Some payload must be a Result that cannot end in success when Err"""
+    if depth > 6:
+        return ('unproven', 'nesting too deep')
+    results, aliases, work = [], [], [list(root)]
+    payload_seen = False
+    while work:
+        P = work.pop()
+        if P in aliases:
+            continue
+        aliases.append(P)
+        for (bi, kind, idx, how, pl) in f.uses_of(P[0]):
+            pl = list(pl)
+            if pl[:len(P)] != P or kind == 'drop':
+                continue
+            rest = pl[len(P):]
+            if rest[:2] == ['@Some', '.0']:
+                if not payload_seen:
+                    payload_seen = True
+                    results.append(self.place(f, P + ['@Some', '.0'], origin, depth + 1))
+                continue
+            if kind == 'stmt':
+                st = f.blocks[bi]['s'][idx]
+                target, rv = st[1], st[2]
+                if how == 'discr':
+                    continue
+                if not rest and rv['r'] in ('use', 'cast') and how in ('m', 'c'):
+                    if list(target) == [0]:
+                        continue     # returned: the caller's call site is a carrier of its own
+                    if len(target) == 1:
+                        work.append([target[0]])
+                        continue
+                results.append(('unproven', 'the Option<Result> is used in rvalue %s' % rv['r']))
+            elif kind == 'arg':
+                c2 = f.call_at(bi)
+                if c2 is None or c2.indirect or rest:
+                    results.append(('unproven', 'the Option<Result> escapes into a call'))
+                    continue
+                if idx == 0 and any(n.endswith('::transpose') and n.startswith('std::option::Option::<') for n in c2.names()):
+                    results.append(self.site(f, c2, depth + 1))
+                    continue
+                if idx == 0 and c2.is_(OPTION + 'ok_or', OPTION + 'ok_or_else', OPTION + 'expect', OPTION + 'unwrap') \
+                        and c2.dest and len(c2.dest) == 1:
+                    results.append(self.place(f, [c2.dest[0]], origin, depth + 1))
+                    continue
+                results.append(('unproven', 'the Option<Result> is handed to %s' % c2.name))
+            else:
+                results.append(('unproven', 'the Option<Result> is used as %s' % kind))
+    if not results:
+        return ('violated', 'the Option<Result> is never inspected: an element error is dropped')
+    return worst(results)
+
+
+ErrFlow.option = _option_flow
